@@ -25,6 +25,10 @@ SKELETONS = {
     "literal-with-hash-then-comment": ["M", "x = '", ("H", 2, "'\\"), "' # c\n", "M", "y = 5"],
     "bracket-continuation": ["M", "x = ('a',\n", ("W", 2), "'", ("H", 3, "'\\"), "')\n", "M", "y = 7"],
     "blank-line-between": ["M", "x = '", ("H", 1, "'\\"), "'\n", ("W", 2), "\n", "M", "y = 6"],
+    # a string literal continued with a backslash: the second physical line is INSIDE the literal, its blanks are content
+    "continued-literal": ["M", "x = 'a", ("H", 1, "'\\"), "\\\n", ("W", 2), "b", ("H", 1, "'\\"), "'\n", "M", "y = 8"],
+    "continued-literal-with-hash": ["M", "x = '#a", ("H", 1, "'\\"), " \\\n", ("W", 2), "b'\n", "M", "y = 9"],
+    "continued-double-quoted-literal": ["M", 'x = "a', ("H", 1, '"\\'), "\\\n", ("W", 2), 'b"\n', "M", "y = 10"],
 }
 
 
@@ -88,6 +92,7 @@ def h_block(name, mlen, indent):
 
     def h(p):
         margin, text = build(p, sk, mlen)
+        p.note("block", text)
         # lexer side (Lexer.match_python_block): adjust_whitespace(text) + "\n"
         adj = PG.adjust_whitespace(text) + "\n"
         # printer side (codegen.visitCode): write_indented_block at the current indent level, flushed by the next writeline
@@ -110,6 +115,9 @@ def lstrip_items(items):
 
 def on_block(name):
     def on(p, r, exc, acc):
+        if isinstance(exc, core.PathTimeout):
+            acc.candidate(kind="remargin-does-not-terminate", input=dict(block=exc.inputs.get("block"), margin=0, indent=0, hang=True), detail=str(exc))
+            return
         if exc is not None:
             acc.candidate(kind="exception", input=None, detail="%s: %s" % (type(exc).__name__, str(exc)[:150]))
             return
@@ -171,6 +179,20 @@ from mako.template import Template
 CASE = __CASE__
 block = CASE["block"]
 print("block:", repr(block))
+if CASE.get("hang"):
+    # the re-margining of this block did not finish within the engine's time limit: run the real lexer under an alarm
+    import signal
+    def _alarm(*a):
+        print("VIOLATED: compiling a template with this <% %> block does not terminate (no result after 8 s)"); os._exit(1)
+    signal.signal(signal.SIGALRM, _alarm); signal.alarm(8)
+    from mako import exceptions
+    try:
+        Template("<" + "%\\n" + block + "\\n%" + ">")
+        print("compiled")
+    except exceptions.MakoException as e:
+        print("rejected:", type(e).__name__)
+    signal.alarm(0)
+    print("HOLDS"); sys.exit(0)
 names = ["x", "y", "z"]
 def native():
     ns = {}
